@@ -70,7 +70,7 @@ def _trap_case(c):
         want_pts = pts if bd else pts[1:-1]
         if P != [float(x) for x in want_pts]:
             fails.append(fail("grid_points", "grid points %r expected %r" % (P, want_pts), key))
-        if len(w) != len(ref) or np.max(np.abs(w - np.array(ref))) > 1e-13 * (b - a):
+        if len(w) != len(ref) or not (np.max(np.abs(w - np.array(ref))) <= 1e-13 * (b - a)):
             fails.append(fail("weights_equal_piecewise_linear_integrals", "points %r: weights %r, exact %r" % (pts, list(w), ref), key))
         if not mod and np.any(w < 0):
             fails.append(fail("weights_nonnegative", "points %r: %r" % (pts, list(w)), key))
@@ -79,7 +79,7 @@ def _trap_case(c):
         if bd or mod:
             for k in ((0, 1) if lin else (0,)):
                 val = float(np.dot(w, np.array(P) ** k))
-                if abs(val - _exact(k, a, b)) > 1e-12 * max(1.0, abs(a), abs(b)) * (b - a):
+                if not (abs(val - _exact(k, a, b)) <= 1e-12 * max(1.0, abs(a), abs(b)) * (b - a)):
                     fails.append(fail("linear_exactness", "points %r: integral of x^%d is %r, exact %r" % (pts, k, val, _exact(k, a, b)), key))
         # independence of the level labelling (same point set, levels of a different valid or arbitrary labelling)
         for alt in ([0] * len(pts), list(reversed(lv)), [0] + [max(lv) + 1 - l for l in lv[1:-1]] + [0]):
@@ -93,7 +93,7 @@ def _trap_case(c):
         f = CustomFunction(lambda x: [1.0, float(x[0])], output_length=2)
         val = np.asarray(g.integrate(f, [max(lv)], np.array([a]), np.array([b])), dtype=float).ravel()
         if lin:
-            if np.max(np.abs(val - np.array([_exact(0, a, b), _exact(1, a, b)]))) > 1e-12 * max(1.0, abs(a), abs(b)) * (b - a):
+            if not (np.max(np.abs(val - np.array([_exact(0, a, b), _exact(1, a, b)]))) <= 1e-12 * max(1.0, abs(a), abs(b)) * (b - a)):
                 fails.append(fail("integrate_linear", "points %r: integrate gives %r" % (pts, list(val)), key))
         out.append(tuple(round(float(x), 12) for x in w))
     return fails, out
@@ -144,7 +144,7 @@ def _highorder_nb(kind, g, f, order, pts, lv, a, b, key):
         return [fail("rule_raises", "points %r: %s: %s" % (pts, type(e).__name__, str(e)[:100]), dict(key, exception=type(e).__name__))], ("exc", type(e).__name__)
     ninner = len(pts) - 2
     ref = _ref_highorder(pts, a, b, order, boundary=False, modified=mod)
-    if not split and not ref[2] and (len(w) != len(ref[0]) or np.max(np.abs(w - ref[0])) > 1e-9 * (b - a)):
+    if not split and not ref[2] and (len(w) != len(ref[0]) or not (np.max(np.abs(w - ref[0])) <= 1e-9 * (b - a))):
         fails.append(fail("weights_equal_moment_matching_reference", "points %r: weights %r, reference (degree %d) %r" % (pts, list(w), ref[1], list(ref[0])), key))
     degs = []
     for q in range(order + 1):
@@ -177,7 +177,7 @@ def _hier_case(c):
             val = np.asarray(g.integrate(f, [max(lv)], np.array([a]), np.array([b])), dtype=float).ravel()
             both = list(lv).count(2) == 2
             for q in ((0, 1) if len(pts) >= 4 else (0,)):
-                if abs(val[q] - _exactn(q, a, b)) > 1e-9 * (b - a):
+                if not (abs(val[q] - _exactn(q, a, b)) <= 1e-9 * (b - a)):
                     fails.append(fail("polynomial_exactness", "points %r: integral of ((x-a)/(b-a))^%d is %r, exact %r" % (pts, q, val[q], _exactn(q, a, b)),
                                       dict(key, degree=("constant" if q == 0 else "linear"), both_level2_points=both)))
                     break
@@ -195,7 +195,7 @@ def _hier_case(c):
         if kind[0] == "highorder" and not kind[1][1]:
             ref = _ref_highorder(pts, a, b, order)
             w = np.asarray(g.weights[0], dtype=float)
-            if not ref[2] and (len(w) != len(ref[0]) or np.max(np.abs(w - ref[0])) > 1e-9 * (b - a)):
+            if not ref[2] and (len(w) != len(ref[0]) or not (np.max(np.abs(w - ref[0])) <= 1e-9 * (b - a))):
                 fails.append(fail("weights_equal_moment_matching_reference", "points %r: weights %r, reference (degree %d) %r" % (pts, list(w), ref[1], list(ref[0])), key))
             out.append(("deg", ref[1]))
         for q in range(order + 1):
@@ -237,13 +237,13 @@ def _tensor_case(c):
         got = {tuple(float(t) for t in p): float(w) for p, w in zip(P, W)}
         if set(got) != set(want) or len(P) != len(want):
             fails.append(fail("tensor_points", "trees %r x %r" % (p0, p1), key))
-        elif max(abs(got[p] - want[p]) for p in want) > 1e-13:
+        elif not (max(abs(got[p] - want[p]) for p in want) <= 1e-13):
             fails.append(fail("tensor_weights", "trees %r x %r" % (p0, p1), key))
         f = CustomFunction(lambda x: [1.0, float(x[0]), float(x[1]), float(x[0]) * float(x[1])], output_length=4)
         val = np.asarray(g.integrate(f, [max(l0), max(l1)], np.array(a), np.array(b)), dtype=float).ravel()
         ex = [(b[0] - a[0]) * (b[1] - a[1]), _exact(1, a[0], b[0]) * (b[1] - a[1]), (b[0] - a[0]) * _exact(1, a[1], b[1]),
               _exact(1, a[0], b[0]) * _exact(1, a[1], b[1])]
-        if np.max(np.abs(val - np.array(ex))) > 1e-11 * max(1.0, max(abs(x) for x in ex)):
+        if not (np.max(np.abs(val - np.array(ex))) <= 1e-11 * max(1.0, max(abs(x) for x in ex))):
             fails.append(fail("tensor_multilinear_exactness", "trees %r x %r: %r, exact %r" % (p0, p1, list(val), ex), key))
         out.append(len(P))
     return fails, out
@@ -278,14 +278,14 @@ def _tensor_hier_case(c):
         fv = CustomFunction(lambda x: [mono(x, S) for S in subsets], output_length=len(subsets))
         val = np.asarray(g.integrate(fv, lv, aa, bb), dtype=float).ravel()
         tol = 1e-9 * max(1.0, float(np.max(np.abs(ex))))
-        if val.shape != ex.shape or np.max(np.abs(val - ex)) > tol:
+        if val.shape != ex.shape or not (np.max(np.abs(val - ex)) <= tol):
             i = int(np.argmax(np.abs(val - ex))) if val.shape == ex.shape else 0
             fails.append(fail("tensor_multilinear_exactness", "trees %r: vector-valued integrand, monomial %r: %r, exact %r" % ([t[0] for t in ts], subsets[i], val[i] if val.shape == ex.shape else val.shape, ex[i]), dict(key, output="vector")))
         for i, S in enumerate(subsets):
             g1 = make()
             g1.set_grid([list(t[0]) for t in ts], [list(t[1]) for t in ts])
             v1 = float(np.asarray(g1.integrate(CustomFunction(lambda x, S=S: mono(x, S)), lv, aa, bb), dtype=float).ravel()[0])
-            if abs(v1 - ex[i]) > tol:
+            if not (abs(v1 - ex[i]) <= tol):
                 fails.append(fail("tensor_multilinear_exactness", "trees %r: scalar integrand, monomial %r: %r, exact %r" % ([t[0] for t in ts], S, v1, ex[i]), dict(key, output="scalar")))
                 break
         out.append(tuple(round(float(v), 9) for v in val))
